@@ -7,10 +7,11 @@
 -/
 import Model.Construct
 import Lemmas.Construct
+import Lemmas.ConstructMore
 
 namespace DI.C10
 
-open DI.Construct
+open DI.Construct DI.Construct.More
 
 /-- whenever the substituted missing value fits the resulting dtype class (NaN in float, "" in
     string, NaT in date/datetime/timedelta, None in object), `is_na` is true exactly at the
@@ -48,5 +49,80 @@ theorem replace_na_exact {α : Type} (a : List (Option α)) (v : α) :
     (a.map (fun x => match x with | none => some v | some y => some y)).length = a.length ∧
     ∀ i (h : i < a.length), (a.map (fun x => match x with | none => some v | some y => some y))[i]'(by simpa using h)
       = (match a[i] with | none => some v | some y => some y) := replaceNa_spec a v
+
+/-! ### round 3: tolist round trip, drop_na / replace_na, the exact guard of the mask mapping -/
+
+/-- `tolist()` round trip: `tolistKinds r xs` is the list `tolist()` returns for the vector `r`
+    built from `xs` (None at the missing positions, the dtype's Python builtin class elsewhere);
+    rebuilding with the vector's own dtype class gives the same dtype class and the same mask,
+    and the same cells (`tolist()` of the rebuilt vector is the same list). -/
+theorem tolist_roundtrip (c : DClass) (xs : List Kind) (r : Result) (hc : c ≠ .bytes)
+    (h : constructWith c xs = some r) :
+    constructWith r.dclass (tolistKinds r xs) = some r ∧
+    (r.na.length = xs.length → tolistKinds r (tolistKinds r xs) = tolistKinds r xs) :=
+  ⟨tolist_rebuild c xs r hc h, tolist_rebuild_cells r xs⟩
+
+/-- `c ≠ bytes` is forced by the model: its `fits` table has no row for bytes elements (bytes
+    vectors only arise by inference), so the rebuilt list is not accepted.  A gap of the model
+    table, not a finding about the implementation. -/
+theorem tolist_roundtrip_bytes_counterexample :
+    constructWith .bytes [.none] = some { dclass := .bytes, na := [false] } ∧
+    constructWith .bytes (tolistKinds { dclass := .bytes, na := [false] } [.none]) = none :=
+  tolist_rebuild_bytes_counterexample
+
+/-- drop_na keeps exactly the non-missing cells (`self[~is_na]`), as many as there are, in
+    their original order; on a vector without missing values it is the identity. -/
+theorem drop_na_exact {α : Type} (a : List (Option α)) :
+    (vdropNa a).map some = a.filter (·.isSome) ∧
+    (vdropNa a).length = a.countP (·.isSome) ∧
+    ((vdropNa a).map some).Sublist a ∧
+    ((∀ x ∈ a, x.isSome = true) → (vdropNa a).map some = a) :=
+  ⟨vdropNa_eq_filter a, vdropNa_length a, vdropNa_sublist a, vdropNa_of_no_na a⟩
+
+/-- replace_na: same length, non-missing positions unchanged, missing positions hold the value,
+    no missing value left (so a following drop_na drops nothing). -/
+theorem replace_na_total {α : Type} (a : List (Option α)) (v : α) :
+    (vreplaceNa a v).length = a.length ∧
+    (∀ (i : Nat) (y : α), a[i]? = some (some y) → (vreplaceNa a v)[i]? = some (some y)) ∧
+    (∀ (i : Nat), a[i]? = some none → (vreplaceNa a v)[i]? = some (some v)) ∧
+    (∀ x ∈ vreplaceNa a v, x.isSome = true) ∧
+    (vdropNa (vreplaceNa a v)).map some = vreplaceNa a v :=
+  ⟨vreplaceNa_length a v, fun i y h => vreplaceNa_some a v i y h, fun i h => vreplaceNa_none a v i h,
+   vreplaceNa_no_na a v, vdropNa_vreplaceNa a v⟩
+
+/-- THE GUARDED MAPPING for the inferred dtype.  `maskGuard xs`: no empty string (it is the
+    missing-value sentinel of string vectors) and — when a None / NaN is present — neither a
+    list of only NumPy bool scalars nor date and datetime objects mixed.  Under the guard,
+    whenever `Vector(xs)` is built, `is_na` is true exactly where `xs` held None / NaN. -/
+theorem construct_mask_exact (xs : List Kind) (r : Result) (hg : maskGuard xs = true)
+    (h : construct xs = some r) : r.na = xs.map Kind.missing :=
+  DI.Construct.More.construct_mask_exact xs r hg h
+
+/-- the guard is exact: outside it the mask differs from the None / NaN positions. -/
+theorem construct_mask_iff_guard (xs : List Kind) (r : Result) (h : construct xs = some r) :
+    r.na = xs.map Kind.missing ↔ maskGuard xs = true :=
+  DI.Construct.More.construct_mask_iff_guard xs r h
+
+/-- the plain reading: no NumPy scalars, no empty string, not (missing value among mixed date
+    and datetime objects). -/
+theorem construct_mask_exact_plain (xs : List Kind) (r : Result) (hg : plainGuard xs = true)
+    (h : construct xs = some r) : r.na = xs.map Kind.missing :=
+  DI.Construct.More.construct_mask_exact_plain xs r hg h
+
+/-- the guard is satisfiable (also with missing values and with NumPy scalars) … -/
+theorem mask_guard_satisfiable :
+    maskGuard [.int, .none, .float, .nan] = true ∧ maskGuard [.npint, .none] = true ∧
+    maskGuard [.date, .npdt, .none] = true ∧ maskGuard [.bool, .none, .obj] = true ∧
+    construct [.int, .none, .float, .nan] = some { dclass := .float, na := [false, true, false, true] } := by
+  decide
+
+/-- … and dropping a clause gives the known counterexamples (and the empty-string sentinel). -/
+theorem mask_guard_needed :
+    (maskGuard [.npbool, .none] = false ∧
+      construct [.npbool, .none] = some { dclass := .bool, na := [false, false] }) ∧
+    (maskGuard [.date, .datetime, .none] = false ∧
+      construct [.date, .datetime, .none] = some { dclass := .object, na := [false, false, false] }) ∧
+    (maskGuard [.str true] = false ∧
+      construct [.str true] = some { dclass := .str, na := [true] }) := by decide
 
 end DI.C10
